@@ -246,6 +246,15 @@ pub fn run(o: &Opts) -> Report {
     if let Some(dir) = &o.probes {
         crate::det::write_probe_crates(dir, "probe_bad", &acc.iter().map(|s| (s.clone(), vec![])).collect::<Vec<_>>(), if o.thorough { 4000 } else { 150 });
     }
+    if let Some(dir) = &o.probes {
+        // every built-in rule and every Unicode property in a one-rule grammar
+        let mut names: Vec<String> = pest::unicode::unicode_property_names().map(|s| s.to_string()).collect();
+        names.extend(refpeg::grammar::BUILTIN_NAMES.iter().map(|s| s.to_string()));
+        names.sort();
+        let items: Vec<(String, Vec<String>)> = names.iter().map(|n| (format!("r = {{ {} ~ {}? }}", n, n), vec![])).collect();
+        crate::det::write_probe_crates(dir, "probe_builtin", &items, 100000);
+        rep.cells.insert("builtins_compile_probed".into(), items.len() as u64);
+    }
     rep.cells.insert("accepted_by_both".into(), acc.len() as u64);
     rep
 }
